@@ -2,6 +2,7 @@
 package c06
 
 import (
+	"encoding/json"
 	"bytes"
 	"fmt"
 	"go/parser"
@@ -28,9 +29,60 @@ func TestMain(m *testing.M) { h.Main(m, "C06") }
 type Case struct {
 	Src   string `json:"src"`
 	From  string `json:"from,omitempty"`
-	Node  int    `json:"node"`  // index (Inspect order) of the node to clone, modulo node count
-	Mut   int    `json:"mut"`   // index of the mutation target among the mutable leaves, modulo count
-	Share int    `json:"share"` // sharing scenario selector
+	Node  int    `json:"node"`           // index (Inspect order) of the node to clone, modulo node count
+	Mut   int    `json:"mut"`            // index of the mutation target among the mutable leaves, modulo count
+	Share int    `json:"share"`          // sharing scenario selector
+	Salt  bool   `json:"salt,omitempty"` // every decoration list of the tree (also those the decorator never fills, e.g. FuncDecl.Type.Decs) gets a marker comment before cloning
+}
+
+// parseCase decorates the source and, for salted cases, appends a unique block comment to every
+// dst.Decorations value reachable in the tree.
+func parseCase(t h.TB, c Case) *dst.File {
+	f := parse(t, c.Src)
+	if c.Salt {
+		n := 0
+		decsType := reflect.TypeOf(dst.Decorations{})
+		seen := map[uintptr]bool{}
+		var walk func(v reflect.Value)
+		walk = func(v reflect.Value) {
+			switch v.Kind() {
+			case reflect.Ptr:
+				if v.IsNil() || seen[v.Pointer()] {
+					return
+				}
+				seen[v.Pointer()] = true
+				walk(v.Elem())
+			case reflect.Interface:
+				if !v.IsNil() {
+					walk(v.Elem())
+				}
+			case reflect.Slice:
+				if v.Type() == decsType {
+					n++
+					v.Set(reflect.Append(v, reflect.ValueOf(fmt.Sprintf("/*s%d*/", n))))
+					return
+				}
+				for i := 0; i < v.Len(); i++ {
+					walk(v.Index(i))
+				}
+			case reflect.Struct:
+				if v.Type().Name() == "Object" || v.Type().Name() == "Scope" {
+					return
+				}
+				for i := 0; i < v.NumField(); i++ {
+					fn := v.Type().Field(i).Name
+					if fn == "Obj" || fn == "Scope" || fn == "Imports" || fn == "Unresolved" {
+						continue
+					}
+					if v.Field(i).CanSet() || v.Field(i).Kind() == reflect.Struct || v.Field(i).Kind() == reflect.Ptr || v.Field(i).Kind() == reflect.Interface || v.Field(i).Kind() == reflect.Slice {
+						walk(v.Field(i))
+					}
+				}
+			}
+		}
+		walk(reflect.ValueOf(f))
+	}
+	return f
 }
 
 func parse(t h.TB, src string) *dst.File {
@@ -181,7 +233,7 @@ func mutate(v reflect.Value) string {
 
 func checkClone(t h.TB, c Case) {
 	const sub = "Clone"
-	f := parse(t, c.Src)
+	f := parseCase(t, c)
 	nodes := dsth.Nodes(f)
 	n := nodes[c.Node%len(nodes)]
 	before := dsth.Dump(n, dsth.DumpOpts{})
@@ -240,13 +292,13 @@ func firstDiff(a, b string) string {
 // checkPrint: replacing a subtree by its clone, and cloning the whole file, print the same bytes.
 func checkPrint(t h.TB, c Case) {
 	const sub = "ClonePrint"
-	f := parse(t, c.Src)
+	f := parseCase(t, c)
 	want, err, pv := print(f)
 	if err != nil || pv != nil {
 		t.Fatalf("harness: base does not print: %v %v", err, pv)
 	}
 	// whole-file clone
-	f2 := parse(t, c.Src)
+	f2 := parseCase(t, c)
 	var whole *dst.File
 	h.Guard(t, sub, c, func() { whole = dst.Clone(f2).(*dst.File) })
 	got, err, pv := print(whole)
@@ -257,7 +309,7 @@ func checkPrint(t h.TB, c Case) {
 		h.Fail(t, sub, c, "cloned file prints differently: %s", oracle.FirstDiffLine(want, got))
 	}
 	// replace one element of a list by its clone
-	f3 := parse(t, c.Src)
+	f3 := parseCase(t, c)
 	slots := listSlots(f3)
 	if len(slots) == 0 {
 		return
@@ -381,7 +433,7 @@ func checkShare(t h.TB, c Case) {
 		checkSharePath(t, c)
 		return
 	}
-	f := parse(t, c.Src)
+	f := parseCase(t, c)
 	// candidate lists: declarations, block statements, call arguments, composite elements, fields
 	type list struct {
 		name   string
@@ -436,7 +488,7 @@ func checkShare(t h.TB, c Case) {
 		return
 	}
 	// (b) the same tree built from a clone prints, and the element occurs twice
-	base, _, _ := print(parse(t, c.Src))
+	base, _, _ := print(parseCase(t, c))
 	var cl dst.Node
 	h.Guard(t, sub, c, func() { cl = dst.Clone(elem) })
 	l.append(cl)
@@ -454,7 +506,7 @@ func checkShare(t h.TB, c Case) {
 	var single bytes.Buffer
 	{
 		// tokens of the element alone: print a file that has only this element appended twice vs once
-		f1 := parse(t, c.Src)
+		f1 := parseCase(t, c)
 		_ = f1
 	}
 	_ = single
@@ -494,6 +546,10 @@ func genCase(sub string) func(t *rapid.T) (Case, bool) {
 			return Case{}, false
 		}
 		c := Case{Src: string(src), From: from, Node: rapid.IntRange(0, 1<<20).Draw(t, "node"), Mut: rapid.IntRange(0, 1<<20).Draw(t, "mut"), Share: rapid.IntRange(0, 1<<20).Draw(t, "share")}
+		if sub != "Sharing" && rapid.IntRange(0, 2).Draw(t, "salt") == 0 {
+			c.Salt = true
+			h.Label("salted")
+		}
 		if sub == "Clone" {
 			if f, err := decorator.Parse(src); err == nil {
 				nodes := dsth.Nodes(f)
@@ -532,6 +588,14 @@ func TestPropClonePrint(t *testing.T) { rapid.Check(t, propPrint) }
 func TestPropSharing(t *testing.T)    { rapid.Check(t, propShare) }
 
 func TestReplay(t *testing.T) {
+	known.RunWitnesses(t, "C06", func(t h.TB, w known.Witness) {
+		var c Case
+		if err := json.Unmarshal(w.Case, &c); err != nil {
+			t.Fatalf("harness: witness %s: %v", w.Name, err)
+		}
+		checkClone(t, c)
+		checkPrint(t, c)
+	})
 	known.RunRegressions(t, "C06")
 	// every node of positions.go (the documented example of every node type and decoration point)
 	src := gen.ReadCorpus(gen.RepoDir() + "/gendst/data/positions.go")
